@@ -91,6 +91,9 @@ func (ks *Kafka) SendEvent(ctx *fiber.Ctx, meta EventMeta) {
 
 		// Events aren't send in correct order
 		for _, obj := range dObj.Objects {
+			if meta.failed(obj.Key, obj.VersionId) {
+				continue
+			}
 			key := *obj.Key
 			schema := createEventSchema(ctx, meta, ConfigurationIdWebhook)
 			schema.Records[0].S3.Object.Key = key
